@@ -579,6 +579,38 @@ func ruleTypestate(rule string) RuleFn {
 				c.Check(bad == nil, rule, pre+"(c) nothing can fail after the done-flag is stored", "only the nil return follows", "a call or error exit follows the store of the done value", st, nil)
 			}
 		}
+		// (e) monotone: the flag never goes back from done
+		for _, m := range ms {
+			if m.kind == "invoke" {
+				continue
+			}
+			owner := m.fn
+			fns := append([]*ssa.Function{owner}, an.Closures(owner)...)
+			for _, f := range fns {
+				for _, st := range an.StoresToField(f, m.flagType, m.flagField) {
+					v := an.Norm(st.Val)
+					if v == m.doneVal {
+						continue
+					}
+					cons := fmt.Sprintf("%s: (e) a store of %s into %s.%s cannot undo a completed execution", an.ShortName(f), v, m.flagType, m.flagField)
+					// must be dominated by a not-done test evaluated in the same function
+					var nd []an.Edge
+					if m.kind == "ctor" {
+						nd = an.EdgesWhere(f, an.FactIs("!p:n."+m.flagField))
+					} else {
+						nd = an.EdgesWhere(f, an.FactIs("(p:n."+m.flagField+" != "+m.doneVal+")"))
+						if on, ok := digConst(c, "decoratorOnStack"); ok {
+							nd = append(nd, an.EdgesWhere(f, an.FactIs("(p:n."+m.flagField+" == "+on+")"))...)
+						}
+					}
+					if hit, path := an.PathTo(f, nil, an.IsInstr(st), an.NewGates().AddEdges(nd...)); hit != nil || len(nd) == 0 {
+						c.Bad(rule, cons, "the flag can be set back to a not-done value although the function may already have completed (e.g. a nested execution succeeded before the outer call failed): the function runs again on the next demand", st, an.BlockPath(c.P, path))
+					} else {
+						c.OK(rule, cons, "only under a not-done test", st)
+					}
+				}
+			}
+		}
 		// (d) single writer
 		for _, ff := range [][2]string{{"constructorNode", "called"}, {"decoratorNode", "state"}} {
 			owner := "(*dig." + ff[0] + ").Call"
